@@ -33,3 +33,13 @@ proof fn theorem_power_loss(w: &World, w2: &World)    //@[C09.power_loss]
     }
     lemma_log_frame(w, w2, ID_BOUND);
 }
+
+// ------------------------------ C03: process crash during a write ------------------------------
+/// Called (ghost) after every World call of Writer::write: if the process were killed here, a restart would see the
+/// operation in flight either applied or not applied, and every earlier operation applied (`m0` is the map before
+/// the operation; `started_recoverable`: the key directory was what a restart would rebuild when the operation began).
+/// A kill in the middle of a World call leaves a state the World also produces when that call fails (records
+/// unchanged, possibly a torn tail), which the error exits of the same function cover (C20.*.err_recoverable).
+proof fn crash_point(w: &World, m0: Map<Bytes, Bytes>, key: Bytes, value: Option<Bytes>, started_recoverable: bool)
+    requires started_recoverable ==> (recover_model(w) == m0 || recover_model(w) == apply_model(m0, key, value)),   //@[C03.write.crash_point]
+{}
